@@ -280,7 +280,10 @@ impl AsyncRead for SimReader {
                 front.drain(..n);
             }
             if p.scribble {
-                for (i, b) in buf[n..].iter_mut().enumerate() {
+                // bounded: a packet announcing a huge remaining length makes the library ask for
+                // hundreds of megabytes per read, and scribbling all of it one byte-sized read
+                // after another made a single run take minutes
+                for (i, b) in buf[n..].iter_mut().take(2048).enumerate() {
                     *b = 0xF5u8.wrapping_add((i % 7) as u8 * 0x11) | 0x80;
                 }
             }
